@@ -289,6 +289,18 @@ struct Hist {
     } catch (...) { J.line("obsexc " + std::to_string(s) + " " + pplv::exc_class()); }
     J.line("sta " + std::to_string(s) + " " + status_line(*slot[s]));
   }
+  // description of every live slot taken from a COPY: the slot itself (and its lazy state) is not
+  // touched, and the reference model is synchronised after every operation, so that a wrong result
+  // is attributed to the operation that produced it
+  void observe_copies() {
+    for (int s = 0; s < NSLOT; ++s) if (slot[s]) {
+      J.line("try " + std::to_string(s) + " copy");
+      try {
+        Grid tmp(*slot[s]);
+        obs(s, "cgens = " + gens_str(tmp.grid_generators(), dim(s)));
+      } catch (...) { J.line("obsexc " + std::to_string(s) + " " + pplv::exc_class()); }
+    }
+  }
   int partner_ro(int s) {
     std::vector<int> c;
     for (int t = 0; t < NSLOT; ++t) if (slot[t] && dim(t) == dim(s)) c.push_back(t);
@@ -424,6 +436,7 @@ struct Hist {
       // is usually rebuilt instead of being mutated further
       if (R.chance(2, 3)) { Grid tmp(*slot[s]); if (tmp.is_empty()) fresh(s, dim(s)); }
       mutate(s);
+      observe_copies();
       // observers chosen to drive the lazy state: none / a query / a description
       unsigned o = R.below(10);
       if (o < 3) {}
